@@ -238,6 +238,12 @@ func (c *ShadowStreamClientConn) writeToServerConn(w *ShadowStreamServerConn) (n
 		return n, err
 	}
 
+	if w.ShadowStreamConn.writeCipher == nil {
+		// The server conn has not sent its response header yet.
+		// Go through its Write method, which takes care of that.
+		return c.ShadowStreamConn.WriteTo(w)
+	}
+
 	return c.ShadowStreamConn.writeToShadowStreamConn(&w.ShadowStreamConn)
 }
 
